@@ -198,6 +198,8 @@ def shape_of(scn):
     """hash input describing the *shape* of a scenario: op / fault-kind sequence + group kind"""
     parts = [scn["config"]["psets"][0]["group"]["kind"],
              "".join(n["cls"] for n in scn["config"]["nodes"])]
+    if scn.get("intent"):
+        parts.append(json.dumps(scn["intent"], sort_keys=True))
     for s in scn["steps"]:
         f = s.get("fault") or s.get("body") or {}
         parts.append("%s%s%s%s" % (s["op"][:3], s.get("n", s.get("dst", "")), f.get("kind", ""), s.get("what", "")))
